@@ -12,6 +12,7 @@ from hxv.ref import resample as rr
 from hxv.runner import Shard
 
 PROP = "C19"
+FUZZ = {"shards": ["hexital-0", "indicator-0"], "procs_per_shard": 2, "runs": 60000, "seconds": 300}
 RULE = (
     "case = a program over an indicator or a Hexital (1-3 timeframes): operations append(chunk, encoding in Candle / dict / "
     "dict with ISO-string timestamp / list with timestamp first / last / no timestamp, single item or list of items) and read-only "
